@@ -439,6 +439,16 @@ def main(plugin, argv):
     assumptions = []
     axioms_seen = []
 
+    # 0. parts of the model that are transcribed from the repository source on every run
+    pregen_note = None
+    if hasattr(plugin, "pregen"):
+        try:
+            pregen_note = plugin.pregen()
+        except Exception as e:
+            import traceback
+            print("FAILED-CHECK property=%s: pregen (source transcription) failed (not a violation):\n%s" % (pid, traceback.format_exc()))
+            sys.exit(2)
+
     # 1. proofs
     files = list(plugin.COQ_FILES)
     bad = grep_gate(files)
